@@ -532,7 +532,7 @@ var keptState = map[string]string{
 	"internal/engine.InformerTrackingCache.active":          "the engine's bookkeeping of active informers: the subject of C13's rules",
 	"internal/engine.StoppableSource.reg":                   "the handler registration a source must remember to be able to remove it (R13.9)",
 	"internal/xfn.PackagedFunctionRunner.conns":             "the gRPC connection cache, governed by R4.6 (target compared with the active revision's endpoint on every use)",
-	"internal/xpkg.teeReadCloser.err":                       "the read error of one package stream, handed to the cache writer (R15.7)",
+	"internal/xpkg.teeReadCloser.*":                         "the read error of one package stream, handed to the cache writer (R15.7); the tee lives as long as one stream",
 }
 
 // statelessness: the functions of the mechanism do not write state that outlives
@@ -648,6 +648,9 @@ func statelessness(c *Ctx, fns []*ssa.Function) {
 	for _, k := range keys {
 		short := strings.TrimPrefix(k, "github.com/crossplane/crossplane/")
 		_, ok := keptState[short]
+		if i := strings.LastIndex(short, "."); !ok && i > 0 {
+			_, ok = keptState[short[:i]+".*"] // every field of a per-stream / per-call object
+		}
 		c.R.Check(ok, "state kept by the mechanism: "+short, found[k], "tabled: "+keptState[short], "a function of the mechanism writes "+short+", which outlives the invocation and is not among the state the mechanism is known to keep: a later decision can rest on what an earlier invocation saw (memo, cache) instead of on what is read now")
 	}
 }
